@@ -60,7 +60,7 @@ func vpC22Datagram(tag string, malformed bool) []byte {
 }
 
 func TestVP_C22_UDP(t *testing.T) {
-	st := vp.NewStats("C22", "udp", "real SOCKS5 UDP associations: associate request carrying 0.0.0.0:0 / owner-ip:0 / owner-ip:port; 2-8 datagrams in generated order from the owner (127.0.0.1), strangers on 127.0.0.2 and 127.0.0.3 and a second socket on the owner's IP, some malformed; then 1-2 replies injected through WriteToClient; non-trivial = a stranger datagram arrives before or between the owner's datagrams")
+	st := vp.NewStats("C22", "udp", "real SOCKS5 UDP associations: associate request carrying 0.0.0.0:0 / 0.0.0.0:port / [::]:0 / [::]:port / owner-ip:0 / owner-ip:port; 2-8 datagrams in generated order from the owner (127.0.0.1), strangers on 127.0.0.2 and 127.0.0.3 and a second socket on the owner's IP, some malformed; then 1-2 replies injected through WriteToClient; non-trivial = a stranger datagram arrives before or between the owner's datagrams")
 	defer st.Flush()
 	mesh := &vpC22Mesh{assocs: map[uint64]*socks5.UDPAssociation{}}
 	cfg := socks5.DefaultServerConfig()
@@ -87,13 +87,27 @@ func TestVP_C22_UDP(t *testing.T) {
 			t.Fatalf("dial: %v", err)
 		}
 		defer tcp.Close()
-		reqKind := rapid.SampledFrom([]string{"0.0.0.0:0", "0.0.0.0:0", "owner-ip:0", "owner-ip:port"}).Draw(t, "request")
+		reqKind := rapid.SampledFrom([]string{"0.0.0.0:0", "0.0.0.0:0", "owner-ip:0", "owner-ip:port", "0.0.0.0:port", "0.0.0.0:anyport", "[::]:0", "[::]:port"}).Draw(t, "request")
+		ownerPort := func() []byte {
+			var p [2]byte
+			binary.BigEndian.PutUint16(p[:], uint16(socks["owner"].LocalAddr().(*net.UDPAddr).Port))
+			return p[:]
+		}
 		req := []byte{5, 1, 0, 5, 3, 0, 1}
 		switch reqKind {
 		case "0.0.0.0:0":
 			req = append(req, 0, 0, 0, 0, 0, 0)
 		case "owner-ip:0":
 			req = append(req, 127, 0, 0, 1, 0, 0)
+		case "0.0.0.0:port":
+			req = append(append(req, 0, 0, 0, 0), ownerPort()...)
+		case "0.0.0.0:anyport":
+			pp := rapid.IntRange(1, 65535).Draw(t, "anyport")
+			req = append(req, 0, 0, 0, 0, byte(pp>>8), byte(pp))
+		case "[::]:0":
+			req = append(append([]byte{5, 1, 0, 5, 3, 0, 4}, make([]byte, 16)...), 0, 0)
+		case "[::]:port":
+			req = append(append([]byte{5, 1, 0, 5, 3, 0, 4}, make([]byte, 16)...), ownerPort()...)
 		default:
 			req = append(req, 127, 0, 0, 1)
 			var p [2]byte
